@@ -43,9 +43,10 @@ extern "C" void h_sequence_types(void) {
    check_product(sc.type(), st, 0, 10); check_product(pl.type(), pt, 0, 12); check_product(cxl.type(), xt, 0, 14);
    const ipr::Name* names[3] = { w->N[0], w->N[1], &lx.get_identifier(u8"third") };
    for (unsigned k = 0; k < C09_K; ++k) {
-      st[k] = &w->t(); pt[k] = &w->t();
+      // one symbolic type pick per step drives the three sequences (they are independent of each other, so their picks need not be multiplied)
+      const ipr::Type& ty = w->t(); st[k] = &ty; pt[k] = &ty;
       ns->declare_var(*names[k % 3], *st[k]); m->param(*names[k % 3], *pt[k]);
-      const ipr::Expr& x = *lx.make_id_expr(w->n(), w->t()); xt[k] = &x.type(); xl->push_back(&x);
+      const ipr::Expr& x = *lx.make_id_expr(w->n(), ty); xt[k] = &x.type(); xl->push_back(&x);
       check_product(sc.type(), st, k + 1, 10); check_product(pl.type(), pt, k + 1, 12); check_product(cxl.type(), xt, k + 1, 14);
       vp_assert(&pl.type().type() == &lx.typename_type() && &sc.type().type() == &lx.typename_type(), 16);
    }
